@@ -384,6 +384,14 @@ func c03Run(c *core.Ctx) *core.Result {
 		}
 		unsolicited = append(unsolicited, hpkt{Kind: "data", ID: core.Pick(R, cands), Data: []byte("evil")})
 	case "data-afterterm":
+		// half of the files are empty: their writer has not opened anything
+		// when the terminator arrives
+		for _, st := range stats {
+			if os.FileMode(st.Mode).IsRegular() && st.Linkname == "" && R.P(1, 2) {
+				st.Size = 0
+				content[st.Path] = []byte{}
+			}
+		}
 	case "backslash":
 		ins(len(stats), fileStat(`zz\..\..\x`))
 	case "newline":
@@ -636,6 +644,7 @@ func c03Run(c *core.Ctx) *core.Result {
 	var reqs []uint32
 	var rmu sync.Mutex
 	var activity atomic.Int64
+	var lateSent atomic.Bool
 	wg.Add(1)
 	go func() {
 		defer wg.Done()
@@ -663,7 +672,9 @@ func c03Run(c *core.Ctx) *core.Result {
 				}
 				rp.Send(&types.Packet{Type: types.PACKET_DATA, ID: p.ID})
 				if mut == "data-afterterm" && !termed[p.ID] {
-					rp.Send(&types.Packet{Type: types.PACKET_DATA, ID: p.ID, Data: []byte("late")})
+					if rp.Send(&types.Packet{Type: types.PACKET_DATA, ID: p.ID, Data: []byte("late")}) == nil {
+						lateSent.Store(true)
+					}
 				}
 				termed[p.ID] = true
 			case types.PACKET_FIN:
@@ -758,9 +769,15 @@ func c03Run(c *core.Ctx) *core.Result {
 	}
 	r.Count("outside_entries_compared", int64(len(before)))
 	// (2) malformed => error, nothing at or after the first offence applied
-	// DATA after the terminator of a requested id is hostile but not among the
-	// malformations the statement lists: containment only
-	malformed := specK >= 0 || mut == "data-unsolicited"
+	// DATA after the terminator of a requested id: the request ended with the
+	// terminator, so this is content for an id that is not requested
+	malformed := specK >= 0 || mut == "data-unsolicited" || lateSent.Load()
+	if lateSent.Load() {
+		r.Count("scripts_with_data_after_the_terminator", 1)
+		if specK < 0 {
+			specWhy = "content after the terminator of a requested id"
+		}
+	}
 	if malformed {
 		r.Count("malformed_scripts", 1)
 		if res.OK && !crashed {
